@@ -391,9 +391,25 @@ def downsCase (args : List String) (impl : String) : Verdict :=
     | none => bad "downs-n"
   | _ => bad "downs-arity"
 
+/-- `finishes n`: n DIFFERENT requests in flight on one Serve call, their handlers return at the same instant
+    (forty rounds): each is served exactly once, nothing crashes (the table of requests in flight is written by n
+    goroutines at once), Shutdown returns nil -/
+def finishesCase (args : List String) (impl : String) : Verdict :=
+  match args with
+  | [n] =>
+    match n.toNat? with
+    | some n =>
+      let model := s!"starts={n} shutdown=nil"
+      mk impl model [("no_panic_no_race", !((impl.splitOn "CRASH").length > 1 || (impl.splitOn "RACE").length > 1 || (impl.splitOn "PANIC").length > 1)),
+                     ("one_handler_per_distinct_request", impl.startsWith s!"starts={n} "),
+                     ("shutdown_returns_nil_after_release", impl.endsWith "shutdown=nil")]
+    | none => bad "finishes-n"
+  | _ => bad "finishes-arity"
+
 def c07 (op : String) (args : List String) (impl : String) : Verdict :=
   match op with
   | "downs" => downsCase args impl
+  | "finishes" => finishesCase args impl
   | "scenario" => scenarioCase args impl
   | _ => bad s!"op:{op}"
 
@@ -421,6 +437,7 @@ def c06 (op : String) (args : List String) (impl : String) : Verdict :=
   match op with
   | "nilcfg" => nilCfgCase impl
   | "dups" => dupsCase args impl
+  | "finishes" => finishesCase args impl
   | "scenario" => scenarioCase args impl
   | _ => bad s!"op:{op}"
 
